@@ -28,7 +28,7 @@ CLAIMS['C20'] = dict(
     text='Static analysis of minidump-stackwalk: no undischarged panic edge in the binary (the --features unimplemented!() arm is discharged by agreement between the clap value_parser list and the handled arms), '
          'every process::exit has status 1 after a diagnostic, no failure exit is reachable after a printer call, the output writers are handed only to ProcessState::print/print_brief/print_json and print_minidump_dump, '
          'and each printer call is control-dependent on the option that selects it with cli.brief / cli.pretty / the cyborg file wired as documented. This decides the wiring clauses for every input and option set; '
-         'byte equality with the library follows from "same call, same writer" and is not compared on values. Raw-dump mode: every fetched stream type is printed and no eagerly evaluated fallback take()s a stream (C20.6). C20.7: every report-shaping Cli field has a read that dominates process_minidump_with_options. C20.8: files are opened for writing only through File::create / create_new (called or as a function value) or an OpenOptions chain that truncates, and --output-file / --cyborg are opened that way, so a destination holds nothing but this run\'s report. C20.7b: feature defaults are only OR-ed with their flags. C20.2b: failure diagnostics reach standard error (known finding for --log-file).',
+         'byte equality with the library follows from "same call, same writer" and is not compared on values. Raw-dump mode: every fetched stream type is printed and no eagerly evaluated fallback take()s a stream (C20.6). C20.7: every report-shaping Cli field has a read that dominates process_minidump_with_options. C20.8: files are opened for writing only through File::create / create_new (called or as a function value) or an OpenOptions chain that truncates, and --output-file / --cyborg are opened that way, so a destination holds nothing but this run\'s report. C20.7b: feature defaults are only OR-ed with their flags. C20.2b: failure diagnostics reach standard error (known finding for --log-file). C20.9: report destinations are compared with the mapped input and each other before being created (known finding).',
     note='Trusted: clap (value_parser and ArgGroup enforcement), tokio::select!, rustc MIR, the extractor. Renaming the mode variables (human/json/raw_dump) is reported as a missing anchor.',
     ref='DESIGN.md §3 C20')
 
@@ -82,7 +82,7 @@ CLAIMS['C16'] = dict(
     text='Cache atomicity as facts about every CFG path, hence every interruption point: commit_cache_file is called only from fetch_symbol_file, only after the Ok edge of parse_async and only with a live temp file; '
          'persist_noclobber happens only after the end-of-body edge of the download loop; files are created only through NamedTempFile::new_in(tmp) (no clobbering / keeping / renaming APIs anywhere in the crate); the temp file is written only by the data callback '
          '(exactly the bytes it was handed; a failed write drops the temp file), by the INFO URL trailer that dominates the persist, and by the raw chunk loop; the local lookup dominates every download and only Err(NotFound) cascades; '
-         'the INFO URL line round-trips into SymbolFile.url. RAII deletion of NamedTempFile on drop/cancellation and the atomicity of persist_noclobber are trusted. The temp file is created exactly once before streaming starts and outside the data callback, which may only give the handle up (C16.6).',
+         'the INFO URL line round-trips into SymbolFile.url. RAII deletion of NamedTempFile on drop/cancellation and the atomicity of persist_noclobber are trusted. The temp file is created exactly once before streaming starts and outside the data callback, which may only give the handle up (C16.6). C16.7: the raw download path is not reachable for FileKind::BreakpadSym (known finding).',
     note='Trusted: tempfile (delete on drop, atomic persist_noclobber), reqwest, the file system. That the callback receives exactly the consumed bytes is C10.1.',
     ref='DESIGN.md §3 C16')
 
@@ -106,7 +106,7 @@ CLAIMS['C06'] = dict(
     text='Narrow claim: the structural clauses of the documented STACK CFI semantics, for every rule program. The operator table of eval_cfi_expr is extracted and compared with the documentation (which wrapping operation, lhs/rhs order with rhs popped first, '
          '/ % fail on zero, @ fails unless rhs is a non-zero power of two and computes lhs & !(rhs-1), ^ goes through the walker with ?, .cfa pushes cfa?, .undef fails, result needs exactly one value); the evaluator has no non-wrapping arithmetic and no undischarged panic edge; '
          'the CFA is evaluated first with cfa = None and feeds set_cfa, .cfa and .ra are mandatory, every other rule either sets or clears its register, and walk_frame applies only delta records at or below the address, in address order. '
-         'It does not compute results: agreement with a reference interpreter over a program space is behavioural and not decided. C06.7/C06.9: the rule map is written only by an unconditional insert in parse_cfi_exprs and only .cfa/.ra are removed; a register label becomes the map key without one leading `$`, so `$rax:` and `rax:` are one rule. C06.8: the walker callbacks the evaluator runs against answer from the callee context under its validity set.',
+         'It does not compute results: agreement with a reference interpreter over a program space is behavioural and not decided. C06.7/C06.9: the rule map is written only by an unconditional insert in parse_cfi_exprs and only .cfa/.ra are removed; a register label becomes the map key without one leading `$`, so `$rax:` and `rax:` are one rule. C06.8: the walker callbacks the evaluator runs against answer from the callee context under its validity set. C06.10: rule-map keys are canonical register names (known finding).',
     note='Trusted: rustc MIR, u64::wrapping_* semantics, BTreeMap insertion order semantics for overriding rules.',
     ref='DESIGN.md §3 C06')
 CLAIMS['C07'] = dict(
@@ -123,7 +123,7 @@ CLAIMS['C04'] = dict(
     text='Narrow claim: necessary structural conditions only. Decided for every input: technique priority cfi > frame pointer > scan with each later technique guarded by frame.is_none() and no way back; technique labels; '
          'arm64.rs and arm64_old.rs are the same MIR modulo the context type; every register name the unwinders use exists in its context\'s tables and every name inserted into or tested against a validity set is the canonical (memoized) spelling; '
          'scan windows (40/160 words, 15 x 16 bytes on amd64 Windows, 1024 bytes on MIPS) equal the documented values. Two alias-spelling defects found by the last rule were repaired in /repo. '
-         'That the right frames come out of a given stack is behavioural and NOT decided: a fault inside a technique\'s arithmetic is invisible here. The x86 FPO technique is checked as a formula table (shared with C07.6): reaching definitions along every path to every set_caller_register call, compared as linear address forms with the documented formulae, and the two decisions compared with the documented ones. ARM64 pointer-authentication mask: all ones below the next power of two above max(2^47-1, end of the highest module) (C04.8). C04.9: the CfiStackWalker handed to the symbol file is built field by field from the callee frame. C04.10: a MIPS walk stays in one ABI - the 32/64-bit dispatch predicate is `flags contain CONTEXT_MIPS64 => n64`, and each scan hands the caller frame context flags that classify it like its callee (a genuine mips64 defect found by this rule was repaired in /repo).',
+         'That the right frames come out of a given stack is behavioural and NOT decided: a fault inside a technique\'s arithmetic is invisible here. The x86 FPO technique is checked as a formula table (shared with C07.6): reaching definitions along every path to every set_caller_register call, compared as linear address forms with the documented formulae, and the two decisions compared with the documented ones. ARM64 pointer-authentication mask: all ones below the next power of two above max(2^47-1, end of the highest module) (C04.8). C04.9: the CfiStackWalker handed to the symbol file is built field by field from the callee frame. C04.10: a MIPS walk stays in one ABI - the 32/64-bit dispatch predicate is `flags contain CONTEXT_MIPS64 => n64`, and each scan hands the caller frame context flags that classify it like its callee (a genuine mips64 defect found by this rule was repaired in /repo). C04.11: the amd64 frame-pointer probe does not abort on a candidate-specific read. C04.12: the iOS-only ARM frame-pointer technique follows r7 (known finding).',
     note='Trusted: rustc MIR, the C18 tables (reused). The twin comparison is order-sensitive over statements and terminators with unnamed locals anonymised; reordering independent statements in only one twin is reported.',
     ref='DESIGN.md §3 C04')
 CLAIMS['C08'] = dict(
@@ -137,7 +137,7 @@ CLAIMS['C10'] = dict(
     technique='consume/callback pairing by dominance, return-shape dataflow, transition-table equality of the sync and async parse loops; finite-domain abstract interpretation of the streaming loops (staleness bit)',
     text='Narrow claim: in SymbolFile::parse and parse_async every buf.consume(n) is dominated by callback(&buf.data()[..n]) with nothing touching the buffer in between and no other way for bytes to leave the window, so the bytes handed to the callback are exactly the consumed prefix; '
          'parse_more returns 0 or the length of the input trimmed after its last newline; the two loops have identical transition tables (every buffer / flag / return effect with its guard conditions), so HTTP chunking feeds the same state machine as a Read; the cache tee is a pure writer. '
-         'Equality of parse outcomes across chunk schedules is behavioural and not decided. The same boolean abstraction decides (C10.5) that fully_consumed is never tested for the end-of-input decision while bytes have arrived since it was last computed, for every chunking. Liveness analysis shows the remaining-input slice is the only local carried round parse_more\'s line loop (C10.6): no per-call state that a chunk boundary would reset.',
+         'Equality of parse outcomes across chunk schedules is behavioural and not decided. The same boolean abstraction decides (C10.5) that fully_consumed is never tested for the end-of-input decision while bytes have arrived since it was last computed, for every chunking. Liveness analysis shows the remaining-input slice is the only local carried round parse_more\'s line loop (C10.6): no per-call state that a chunk boundary would reset. C10.8: every field tokeniser of the record parsers is evaluated on a line feed and must stop there. C10.9: recovery on a zero-length read only when the buffer is full (known finding).',
     note='Trusted: circular::Buffer (data / consume semantics), rustc MIR of the coroutine before the state transform.',
     ref='DESIGN.md §3 C10')
 CLAIMS['C11'] = dict(
@@ -152,7 +152,7 @@ CLAIMS['C02'] = dict(
     technique='endianness provenance dataflow on every scroll read, LE/BE twin comparison of byte-order branches, derive pairing from the impl table, insert discipline of the directory loop; who-may-call on text decoders',
     text='Narrow claim: only the byte-order and layout-pairing clauses. Every scroll read that takes an Endian context (329 call sites in minidump and minidump-common) receives an endianness data-flow-derived from a parameter or field, '
          'and Endian constants occur only in the signature probe of Minidump::read; every branch on the byte order has a Little and a Big arm that are LE/BE twins; every format.rs type read through scroll derives Pread and SizeWith from one field list '
-         '(the five hand-written readers are a reviewed list); duplicate directory entries are stored by an unconditional insert in file order, so the last one is served. Field offsets/padding against the serializer, identifier derivation and memory contents relate values to values and are NOT decided. Text decoding: only the BOM-agnostic, replacement-free encoding_rs decoders, with the UTF-16 encoding selected by the byte order (arms read from discriminant facts). The directory loop records entries only and the cached system info is read through the finished map (C02.4b). C02.6: memory regions carry base / size / bytes straight from their descriptor (Memory64 slices consecutive). C02.7: the CPU_INFORMATION union (24 undecoded bytes) is only ever consumed as the receiver of pread_with(_, 0, endian), never byte-wise. C02.8/C02.9: the debug-id and code-id derivation tables (read_debug_id, MinidumpModule::code_identifier) are extracted arm by arm: Pdb20/Pdb70/Elf forms, the Elf all-zero test over the whole build id, GUID read at offset 0 with the dump\'s byte order, format templates from the compiled constants.',
+         '(the five hand-written readers are a reviewed list); duplicate directory entries are stored by an unconditional insert in file order, so the last one is served. Field offsets/padding against the serializer, identifier derivation and memory contents relate values to values and are NOT decided. Text decoding: only the BOM-agnostic, replacement-free encoding_rs decoders, with the UTF-16 encoding selected by the byte order (arms read from discriminant facts). The directory loop records entries only and the cached system info is read through the finished map (C02.4b). C02.6: memory regions carry base / size / bytes straight from their descriptor (Memory64 slices consecutive). C02.7: the CPU_INFORMATION union (24 undecoded bytes) is only ever consumed as the receiver of pread_with(_, 0, endian), never byte-wise. C02.8/C02.9: the debug-id and code-id derivation tables (read_debug_id, MinidumpModule::code_identifier) are extracted arm by arm: Pdb20/Pdb70/Elf forms, the Elf all-zero test over the whole build id, GUID read at offset 0 with the dump\'s byte order, format templates from the compiled constants. C02.10: the CPU table of the system info and the context-layout table of MinidumpContext::read cover the same architectures.',
     note='Trusted: scroll and its derives, rustc MIR and impl table.',
     ref='DESIGN.md §3 C02')
 CLAIMS['C15'] = dict(
